@@ -33,7 +33,7 @@ Theorem C06_reject_macro_redefined : forall f s v,
   ctype s = TT_DEFINE -> ctype (next s) = TT_NAME ->
   let s2 := next (next s) in
   (routine_start s2)%bool = false ->
-  get_macro s2 (ctext (next s)) = Some v ->
+  global_macro s2 (ctext (next s)) = Some v ->
   p_command (S f) s = PErr (cline s2).
 Proof. exact reject_macro_redefined. Qed.
 Print Assumptions C06_reject_macro_redefined.
@@ -42,7 +42,7 @@ Theorem C06_reject_macro_redefined_as_routine : forall f s v,
   ctype s = TT_DEFINE -> ctype (next s) = TT_NAME ->
   let s2 := next (next s) in
   (routine_start s2)%bool = true ->
-  get_macro s2 (ctext (next s)) = Some v ->
+  global_macro s2 (ctext (next s)) = Some v ->
   p_command (S f) s = PErr (cline s2).
 Proof. exact reject_macro_redefined_as_routine. Qed.
 Print Assumptions C06_reject_macro_redefined_as_routine.
